@@ -387,13 +387,18 @@ func (*Ufs) Open(req *SrvReq) {
 		return
 	}
 
-	var e error
-	fid.file, e = os.OpenFile(fid.path, omode2uflags(tc.Mode), 0)
+	file, e := os.OpenFile(fid.path, omode2uflags(tc.Mode), 0)
 	if e != nil {
 		req.RespondError(toError(e))
 		return
 	}
 
+	// a file left by an earlier Topen/Tcreate that did not take effect
+	// (cancelled by a Tversion, or failed after opening) is not forgotten
+	if fid.file != nil {
+		_ = fid.file.Close()
+	}
+	fid.file = file
 	req.RespondRopen(dir2Qid(fid.st), 0)
 }
 
@@ -477,6 +482,9 @@ func (*Ufs) Create(req *SrvReq) {
 	}
 
 	fid.path = path
+	if fid.file != nil {
+		_ = fid.file.Close()
+	}
 	fid.file = file
 	err = fid.stat()
 	if err != nil {
